@@ -1,7 +1,7 @@
 #!/bin/sh
 # Sensitivity suite: every kept seeded change must still make (one of) its checks exit 1 with a key that is not a known finding.
 cd /verif || exit 2
-for d in seeded/*/; do
+for d in seeded/[A-Z]*/; do
   n=$(basename "$d")
   checks=$(/venv/bin/python -c "import json;print(' '.join(json.load(open('$d/meta.json'))['detected_by'][:1]))")
   out=$(SKIP_BASELINE=1 tools/seedtest.sh "/verif/$d" $checks 2>&1 | grep "^check" | cut -c1-140)
